@@ -462,11 +462,7 @@ func redactPipelineStage(stage interface{}, redactFieldNames bool, keyPath []str
 					continue
 				case OperatorArray:
 					if arr, ok := v.([]any); ok {
-						redactedArr := make([]any, len(arr))
-						for i, elem := range arr {
-							redactedArr[i] = redactPipelineStage(elem, redactFieldNames, newKeyPath, inSearchStage)
-						}
-						newMap.Set(redactedKey, redactedArr)
+						newMap.Set(redactedKey, redactOperandList(arr, redactFieldNames, newKeyPath, inSearchStage))
 						continue
 					}
 					// a single operand that is not wrapped in an array is redacted like any other value below
@@ -522,11 +518,7 @@ func redactPipelineStage(stage interface{}, redactFieldNames bool, keyPath []str
 									continue
 								case OperatorArray:
 									if arr, ok := subV.([]any); ok {
-										redactedArr := make([]any, len(arr))
-										for i, elem := range arr {
-											redactedArr[i] = redactPipelineStage(elem, redactFieldNames, newKeyPath, inSearchStage)
-										}
-										newSubMap.Set(subK, redactedArr)
+										newSubMap.Set(subK, redactOperandList(arr, redactFieldNames, newKeyPath, inSearchStage))
 										continue
 									}
 									// a single operand that is not wrapped in an array is redacted like any other value below
@@ -600,6 +592,21 @@ func redactPipelineStage(stage interface{}, redactFieldNames bool, keyPath []str
 	default:
 		return stage
 	}
+}
+
+// redactOperandList walks the operands of $and / $or / must / should ...: documents and arrays as pipeline
+// stages, bare literals like the literals of any other array.
+func redactOperandList(arr []any, redactFieldNames bool, keyPath []string, inSearchStage bool) []any {
+	redactedArr := make([]any, len(arr))
+	for i, elem := range arr {
+		switch elem.(type) {
+		case *orderedmap.OrderedMap[string, any], []any:
+			redactedArr[i] = redactPipelineStage(elem, redactFieldNames, keyPath, inSearchStage)
+		default:
+			redactedArr[i] = redactArrayValues([]any{elem}, redactFieldNames, inSearchStage, false, keyPath)[0]
+		}
+	}
+	return redactedArr
 }
 
 func redactQueryValues(obj *orderedmap.OrderedMap[string, any], redactFieldNames bool, isSearchStage bool, parentCoreOp interface{}, keyPath []string) *orderedmap.OrderedMap[string, any] {
